@@ -7,6 +7,9 @@
 #ifndef KIND
 #define KIND ND_ADD
 #endif
+#ifndef TMAX
+#define TMAX 9
+#endif
 static SpecTy st(Type *t) { SpecTy s = { t->size, t->is_unsigned || t->kind == TY_BOOL, t->kind == TY_BOOL }; return s; }
 static _Bool same_ty(Type *t, SpecTy s) {   /* t is an integer type with the size and signedness of s, not _Bool */
   return is_integer(t) && t->kind != TY_BOOL && t->size == s.size && (t->is_unsigned != 0) == (s.uns != 0)
@@ -14,13 +17,17 @@ static _Bool same_ty(Type *t, SpecTy s) {   /* t is an integer type with the siz
 }
 static Type *pick(int i) {
   switch (i) { case 0: return ty_bool; case 1: return ty_char; case 2: return ty_uchar; case 3: return ty_short; case 4: return ty_ushort;
-               case 5: return ty_int; case 6: return ty_uint; case 7: return ty_long; case 8: return ty_ulong; default: return enum_type(); }
+               case 5: return ty_int; case 6: return ty_uint; case 7: return ty_long; case 8: return ty_ulong; case 9: return enum_type();
+               case 10: return ty_float; case 11: return ty_double; default: return ty_ldouble; }
 }
 void harness(void) {
   Token tok = {0};
   Node a = {0}, b = {0}, c = {0}, n = {0};
   IN(int, ta); IN(int, tb); IN(int, tc);
-  ASSUME(0 <= ta && ta <= 9 && 0 <= tb && tb <= 9 && 0 <= tc && tc <= 9);
+  ASSUME(0 <= ta && ta <= TMAX && 0 <= tb && tb <= TMAX && 0 <= tc && tc <= 9);
+  _Bool anyfl = ta >= 10 || tb >= 10;
+  int flrank = (ta >= 10 ? ta : 0) > (tb >= 10 ? tb : 0) ? ta : tb;      /* 10 float < 11 double < 12 long double */
+  TypeKind flkind = flrank == 10 ? TY_FLOAT : flrank == 11 ? TY_DOUBLE : TY_LDOUBLE;
   a.kind = b.kind = c.kind = ND_NULL_EXPR; a.tok = b.tok = c.tok = n.tok = &tok;
   a.ty = pick(ta); b.ty = pick(tb); c.ty = pick(tc);
   n.kind = KIND;
@@ -41,6 +48,17 @@ void harness(void) {
   case ND_COMMA: n.lhs = &a; n.rhs = &b; want = sb; break;
   case ND_ASSIGN: n.lhs = &a; n.rhs = &b; want = sa; break;
   }
+#if TMAX > 9
+  ASSUME(anyfl);
+  ASSUME(KIND == ND_ADD || KIND == ND_SUB || KIND == ND_MUL || KIND == ND_DIV || KIND == ND_EQ || KIND == ND_NE || KIND == ND_LT || KIND == ND_LE || KIND == ND_COND);
+  add_type(&n);
+  REACH("add_type returns");
+  _Bool cmp = KIND == ND_EQ || KIND == ND_NE || KIND == ND_LT || KIND == ND_LE;
+  Node *l = KIND == ND_COND ? n.then : n.lhs, *r = KIND == ND_COND ? n.els : n.rhs;
+  OBLIGE(cmp ? (n.ty->kind == TY_INT && n.ty->size == 4) : n.ty->kind == flkind, "C02.6 usual arithmetic conversions: the operation type is the floating type of highest rank among the operands (comparisons yield int)");
+  OBLIGE(l->kind == ND_CAST && l->lhs == &a && l->ty->kind == flkind && r->kind == ND_CAST && r->lhs == &b && r->ty->kind == flkind, "C02.6 both operands are converted to that floating type");
+  return;
+#else
   REACH("explored");
   add_type(&n);
   REACH("add_type returns");
@@ -58,5 +76,6 @@ void harness(void) {
     OBLIGE(n.els->kind == ND_CAST && n.els->lhs == &b && same_ty(n.els->ty, opty), "C01.1 third operand of ?: converted to the common type");
     OBLIGE(n.cond == &c, "C01.1 condition left alone");
   }
+#endif
 }
 VERIF_MAIN
